@@ -259,6 +259,28 @@ static int text_src_convert(MPT_INTERFACE(convertable) *c, MPT_TYPE(type) type, 
 	return MPT_ERROR(BadType);
 }
 static const MPT_INTERFACE_VPTR(convertable) text_src_vptr = { text_src_convert };
+/* source that offers a span of a longer buffer as character vector (and the rest of the buffer as text) */
+struct vec_src {
+	MPT_INTERFACE(convertable) c;
+	char *base;
+	size_t len;
+};
+static int vec_src_convert(MPT_INTERFACE(convertable) *c, MPT_TYPE(type) type, void *ptr)
+{
+	struct vec_src *v = (struct vec_src *) c;
+	if (type == MPT_type_toVector('c')) {
+		struct iovec *vec = ptr;
+		if (vec) { vec->iov_base = v->base; vec->iov_len = v->len; }
+		return 's';
+	}
+	if (type == 's') {
+		if (ptr) *((const char **) ptr) = v->base;
+		return 's';
+	}
+	return MPT_ERROR(BadType);
+}
+static const MPT_INTERFACE_VPTR(convertable) vec_src_vptr = { vec_src_convert };
+
 static int set_by_property(struct lobj *l, const char *name, const char *text, int reset)
 {
 	MPT_STRUCT(identifier) id = MPT_IDENTIFIER_INIT;
@@ -333,6 +355,23 @@ static int do_set(struct lobj *l, const char *name, const struct cmd *c, char *d
 		rc = mpt_object_set_string(&l->o, name, t, 0);
 		memset(t, 'Q', strlen(t));   /* the object must not keep the caller's buffer */
 		free(t);
+	}
+	else if (!strcmp(f, "vec") && nn >= 2) {   /* span n[0]..n[0]+len of a buffer with n[1] more bytes before its NUL */
+		char *body = arg_rle(c, "c");
+		size_t bl = strlen(body), pre = (size_t) n[0], post = (size_t) n[1];
+		char *buf = (char *) malloc(pre + bl + post + 1);
+		struct vec_src src;
+		memset(buf, 'P', pre);
+		memcpy(buf + pre, body, bl);
+		memset(buf + pre + bl, 'S', post);
+		buf[pre + bl + post] = 0;
+		src.c._vptr = &vec_src_vptr;
+		src.base = buf + pre;
+		src.len = bl;
+		rc = l->o._vptr->set_property(&l->o, name, &src.c);
+		memset(buf, 'Q', pre + bl + post);
+		free(buf);
+		free(body);
 	}
 	else if (!strcmp(f, "s")) {      /* typed character pointer value */
 		char *t = arg_text(c, "c");
